@@ -217,13 +217,18 @@ def gen_value_case(seed, cid, wrap_in_minmax=False):
     cg.wrap_in_minmax = wrap_in_minmax
     orig = g.val_expr
 
+    used = {}
+
     def val_expr(ty, v):
         e = orig(ty, v)
         if ty["k"] in ("int", "bool") and rng.random() < 0.35:
             t = "bool" if ty["k"] == "bool" else ty["t"]
             name = cg.by_value.get((t, v)) if rng.random() < 0.5 else None
             name = name or cg.const(t, v)
-            return gen_prog.E(f"‹{name}|{e.text}›", e.ast)
+            used[name] = (ty, v)
+            # the text has both spellings; the tree keeps the literal (the generator looks at literals) with a marker
+            # that is turned into a reference to the constant afterwards (the Lean models bind it to its value)
+            return gen_prog.E(f"‹{name}|{e.text}›", list(e.ast) + [{"const": name}])
         return e
     g.val_expr = val_expr
     p = g.program()
@@ -231,8 +236,19 @@ def gen_value_case(seed, cid, wrap_in_minmax=False):
     b = re.sub("‹\\w+\\|([^›]*)›", r"\1", p["src"])
     # patterns and array sizes must stay literals: a constant there is not what this case tests
     args = [[c01.small_value(rng, t) if i % 2 == 0 else T.rand_value(rng, t, 0.4) for _, t in p["params"]] for i in range(4)]
+    def refs(x):
+        if isinstance(x, list):
+            if len(x) == 4 and x[0] == "int" and isinstance(x[3], dict) and "const" in x[3]:
+                return ["var", x[3]["const"]]
+            if len(x) == 3 and x[0] == "bool" and isinstance(x[2], dict) and "const" in x[2]:
+                return ["var", x[2]["const"]]
+            return [refs(y) for y in x]
+        return x
+    p["prog"] = dict(p["prog"], fns=[dict(f, body=refs(f["body"])) for f in p["prog"]["fns"]])
+    prog = dict(p["prog"], consts=[[n, gen_prog.val_json(ty, v)] for n, (ty, v) in sorted(used.items())],
+                const_tys=[[n, ty] for n, (ty, v) in sorted(used.items())])
     return {"id": cid, "seed": seed, "kind": "value-wrap-under-minmax" if wrap_in_minmax else "value", "src_a": cg.decl_text() + a, "src_b": b, "params": p["params"], "args": args, "cg": cg,
-            "prog": p["prog"], "ret": p["ret"]}
+            "prog": prog, "ret": p["ret"]}
 
 
 def run(ctx):
@@ -276,6 +292,11 @@ def run(ctx):
             c["mistyped"] = (k, t, other)
             reqs.append(req(c, c["src_a"], c["cg"].consts_json(mistype={k: other}), 3))
     res = common.run_lines_guarded(common.GVH, reqs, per_case_timeout=10.0)
+    # the compiler model with the constants as wires (theorem C12_program) against the circuit compiled with constants
+    vcases = [c for c in cases if c["kind"] == "value" and "prog" in c]
+    bit, _, _ = ctx.run_model([{"id": c["id"], "op": "bit_eval", "prog": c["prog"],
+                                "inputs": [[gen_prog.val_json(t, v) for (_, t), v in zip(c["params"], a)] for a in c["args"]]} for c in vcases], timeout=3000)
+    mtally = {"value": 0, "panic": 0, "outside-the-fragment": 0}
     tally = {"equivalent": 0, "both-rejected": 0, "missing-reported": 0, "mistyped-reported": 0, "evaluations": 0}
     kinds = {}
     shapes = {}
@@ -313,6 +334,25 @@ def run(ctx):
                                     dict(sub, args=[gen_prog.val_json(t, v) for (_, t), v in zip(c["params"], diff[0])]), diff[2][:1] + diff[2][161:][:80], diff[1][:1] + diff[1][161:][:80]))
             continue
         tally["equivalent"] += 1
+        m = bit.get(c["id"]) if c["kind"] == "value" and "prog" in c else None
+        if m is not None:
+            if "outside" in m or any("outside" in x for x in m.get("results", [])):
+                mtally["outside-the-fragment"] += 1
+            else:
+                for a, out, mm in zip(c["args"], ra["outs"], m["results"]):
+                    if out.startswith("panic@"):
+                        break
+                    flag, reason, value = out[0], int(out[1:33], 2), out[161:]
+                    if mm["panic"] is not None:
+                        mtally["panic"] += 1
+                        okm = flag == "1" and reason == c01.PANIC_CODES[mm["panic"]]
+                    else:
+                        mtally["value"] += 1
+                        okm = flag == "0" and value == mm["bits"]
+                    if not okm:
+                        failures.append(Failure("model", "c12:compiler-model-with-constants-differs", "the circuit compiled with constants and the compiler model with the constants as wires (Bit.bitBody, theorem C12_program) disagree",
+                                                dict(sub, args=[gen_prog.val_json(t, v) for (_, t), v in zip(c["params"], a)]), mm, out[:40] + "…" + value))
+                        break
         # negative cases
         rm = res.get(c["id"] * 4 + 2)
         if rm is not None and "dropped" in c:
@@ -348,7 +388,7 @@ def run(ctx):
                 "constants supplied and, independently, from the text with the values substituted: same input parties, same outputs on "
                 "4 argument tuples. Then some constants are left out / supplied with another type: compilation must return an error "
                 "naming them. non-trivial = program pairs found equivalent",
-        "distribution": {"results": tally, "kinds": kinds, "const_expression_roots": shapes},
+        "distribution": {"results": tally, "kinds": kinds, "const_expression_roots": shapes, "compiler_model_with_constants": mtally},
         "samples": [{"src": cases[0]["src_a"]}, {"src": cases[1]["src_a"]}],
     }
     return common.finish(ctx, uniq, coverage, ["usize constants between 1 and 5 for sizes"], "proof", search=None)
